@@ -77,8 +77,9 @@ func Harness_C04_q_pair_verify_talk() {
 	}
 	salt, B := m2.GetBytes(pair.TagSalt), m2.GetBytes(pair.TagPublicKey)
 	verif.Assert(len(salt) == 16, "M2-salt-16-bytes")
-	verif.Assert(len(B) == 384, "M2-B-384-bytes")
-	if len(salt) != 16 || len(B) != 384 {
+	// big-endian without leading zero bytes: 384 bytes, fewer with probability 2^-8 per byte
+	verif.Assert(len(B) > 0 && len(B) <= 384, "M2-B-at-most-384-bytes")
+	if len(salt) != 16 || len(B) == 0 || len(B) > 384 {
 		return
 	}
 	c := rcSRPClient(verif.Bytes("client-a", 32), w.dev.pin, salt, B)
@@ -198,7 +199,7 @@ func Harness_C04_q_wrong_setup_code() {
 		return
 	}
 	salt, B := m2.GetBytes(pair.TagSalt), m2.GetBytes(pair.TagPublicKey)
-	if len(salt) != 16 || len(B) != 384 {
+	if len(salt) != 16 || len(B) == 0 {
 		return
 	}
 	c := rcSRPClient(verif.Bytes("client-a", 32), wrong, salt, B)
